@@ -27,6 +27,7 @@ func init() {
 			"R3 in FindAVPWithVendor the application id used in the index lookups is a loop-carried value whose sources are exactly the caller's id, parentAppIds[previous] and 0, the not-found exit for uint32 codes returns MakeUnknownAVP(original app, code, vendor) whose type is UnknownType, parentAppIds is acyclic, and FindCommand retries with application 0 on the miss edge; " +
 			"R4 Load inserts each AVP into both indexes under its own vendor id and under the wildcard vendor, unconditionally, updates the application indexes unconditionally, and nothing in package dict deletes from a Parser map. " +
 			"R1 also: datatype.Decode dispatches through the Decoder table. R3 is decided by abstract interpretation of FindAVPWithVendor over 120 scenarios (code given as uint32 / int / string / other × parent chain of length 0–2 or none × every set of chain levels at which the AVP is defined): the result is the definition at the first level that has one, else the base application's, else the placeholder / error. R4 also: the index maps are created only by the once-initialiser. " +
+			"R4 also: every nil-error return of Load is dominated by the decoding of its input — no already-seen shortcut, so a dictionary loaded again wins over what was loaded in between. " +
 			"Not decided: precedence over loading histories beyond last-write-wins/nothing-deleted, typed App() after re-definition, generated dictionaries.",
 		Rules: map[string]string{
 			"R1": "Available values = Decoder keys \\ {Unknown} = TypeID constants; Decoder[K] returns a type with Type()==K",
